@@ -82,6 +82,15 @@ def run(chk, args):
     if w3["violated"] != "Purity":
         raise vlib.Machinery("vacuity control: History_expStale (update() keeps the cached theory) should violate Purity")
     chk.notes["vacuity_control_exp"] = "History_expStale.cfg violates Purity as it must"
+    r4 = vlib.tlc_must_pass("Dispersers", "Dispersers.cfg", timeout=1200)
+    chk.add_tlc(r4, "Dispersers: caller-owned distribution objects handed to wrappers (CallerUntouched, Independent)")
+    if r4["violated"]:
+        chk.design_violation(r4, "Dispersers", {"class": "design-dispersers"})
+    w4 = vlib.tlc("Dispersers", "Dispersers_alias.cfg", timeout=600)
+    if w4["violated"] not in ("CallerUntouched", "Independent"):
+        raise vlib.Machinery("vacuity control: Dispersers_alias (the wrapper's table is the object's own attribute dictionary) "
+                             "should violate CallerUntouched or Independent, got %s / %s" % (w4["violated"], w4["error"]))
+    chk.notes["vacuity_control_dispersers"] = "Dispersers_alias.cfg violates %s as it must" % w4["violated"]
 
     if args.replay:
         hs = [json.load(open(args.replay))["detail"]["scenario"]]
